@@ -22,6 +22,7 @@ type World struct {
 	Tags      string
 	mu        sync.Mutex
 	typeCache map[string]types.Type
+	slots     sync.Map
 	LoadTime  time.Duration
 }
 
@@ -297,9 +298,15 @@ func (w *World) Explore(spec HarnessSpec) (*Report, error) {
 }
 
 func (w *World) newInterp(cfg *Config, sol *Solver, prefix []Decision) *Interp {
+	if sol.store == nil || sol.storeUses > 200 || sol.store.next > 400000 {
+		sol.store = NewStore()
+		sol.storeUses = 0
+	}
+	sol.storeUses++
+	sol.store.NewEpoch()
 	in := &Interp{
 		prog:     w.Prog,
-		st:       NewStore(),
+		st:       sol.store,
 		sol:      sol,
 		ps:       &pathState{prefix: prefix},
 		cfg:      cfg,
